@@ -770,6 +770,7 @@ class Interp:
         raise OutsideFragment(f"truth of {type(v).__name__}")
 
     def exec_stmt(self, st, env):
+        self.cur_stmt = (env, st)
         try:
             return self._exec_stmt(st, env)
         except OutsideFragment as exc:
